@@ -255,14 +255,24 @@ func rewriteFile(fset *token.FileSet, f *ast.File, src []byte, name string, plai
 		case *ast.CompositeLit:
 			if sel, ok := x.Type.(*ast.SelectorExpr); ok {
 				if id, ok := sel.X.(*ast.Ident); ok && httpName != "" && id.Name == httpName && sel.Sel.Name == "Transport" {
+					ownDial := false
 					for _, el := range x.Elts {
 						kv, ok := el.(*ast.KeyValueExpr)
 						if !ok {
 							fatal("%s: http.Transport literal with positional fields", name)
 						}
-						if k, ok := kv.Key.(*ast.Ident); ok && (k.Name == "DialContext" || k.Name == "Dial") {
+						if k, ok := kv.Key.(*ast.Ident); ok && k.Name == "Dial" {
 							fatal("%s: http.Transport literal already sets %s", name, k.Name)
 						}
+						if k, ok := kv.Key.(*ast.Ident); ok && k.Name == "DialContext" {
+							// the code under test brings its own dialer: it is evaluated and replaced by the in-memory one
+							needMemnet, ownDial = true, true
+							edits = append(edits, edit{off(kv.Value.Pos()), off(kv.Value.Pos()), "memnet.ReplaceDial("})
+							edits = append(edits, edit{off(kv.Value.End()), off(kv.Value.End()), ")"})
+						}
+					}
+					if ownDial {
+						break
 					}
 					needMemnet = true
 					ins := "DialContext: memnet.DialContext"
